@@ -485,6 +485,11 @@ converter.register_unstructure_hook({class_name}, _unstructure_{class_name.lower
                 # Sanitize the property name for use as a Python attribute
                 field_name = NameSanitizer.sanitize_method_name(prop_name)
 
+                # 'date', 'field' and 'dataclass' are names imported into model modules; a field with that name
+                # would shadow the import for the rest of the class body (date | None -> None | None)
+                if field_name in ("date", "field", "dataclass"):
+                    field_name = f"{field_name}_"
+
                 # Collision detection: check if this sanitized name was already used
                 if field_name in seen_field_names:
                     original_api_name = seen_field_names[field_name]
